@@ -779,6 +779,48 @@ def rule_periodic_crossings(ctx, rule):
                       "populate one of the two crossing groups, both centres land on the same crossing, t_right - t_left = 0, the level window is empty and mu0 = mu1 = nan")
 
 
+def rule_sampling_index(ctx, rule):
+    """eye.i is the sample of the slot (0 .. sps-1, original rate) at which the eye is widest.  It is computed from the position k of
+    t_opt on the folded axis, which has S samples per slot (S = sps_resamp when the record was resampled, sps otherwise) and was
+    rolled by half a slot: i = k - S//2 + 1 on that axis, then rescaled by sps/S.  The half slot must be counted in the axis's own
+    samples - sps//2 taken off an index on the resampled axis leaves i near the END of the slot, and for sps = 8 outside [0, sps)."""
+    pkg = ctx.pkg
+    fi = pkg.func("devices.GET_EYE")
+    for resamp in (True, False):
+        case = f"sps_resamp {'given' if resamp else 'omitted'}"
+        label = f"GET_EYE [{case}]: sampling index counted in the samples of the folded axis"
+        it = Interp(pkg, param_classes={"input": "electrical_signal"}, assumptions={"input.noise": "none", "sps_resamp": ("truth", resamp)}, no_inline=("shortest_int",))
+        rets = [o for o in it.run(fi) if o.kind == "return" and isinstance(o.value, ObjV)]
+        if len(rets) != 1 or not isinstance(rets[0].value.fields.get("t"), Form) or not isinstance(rets[0].value.fields.get("i"), Form):
+            ctx.unknown(rule, fi, fi.node, label, f"{len(rets)} return paths / index not identified")
+            continue
+        eye = rets[0].value
+        t, iv = eye.fields["t"], eye.fields["i"]
+        ts = repr(t)
+        inner = iv
+        ia = iv.single_atom()
+        if ia is not None and ia[0] == "fn" and ia[1] == "int" and len(ia[2]) == 1 and isinstance(ia[2][0], Form) and iv == Form.atom(ia):
+            inner = ia[2][0]
+        args = [a for a in inner.atoms(deep=False) if a[0] == "fn" and a[1].split(".")[-1] == "argmin" and ts in repr(a[2][0])]
+        if len(args) != 1:
+            ctx.holds(rule, fi, rets[0].node, label, "index not computed from one position on the folded axis (not this idiom)")
+            continue
+        A = Form.atom(args[0])
+        S_axis = S("sps_resamp") if resamp else S("gv.sps")
+        k = _axis_slots(t)
+        want_inner = A - mk_fn("floordiv", [S_axis, Form.num(2)]) + 1
+        want = want_inner * S("gv.sps") / S_axis if resamp else want_inner
+        # same idiom (an affine function of the position): the offset has to be the half slot of THIS axis
+        coef = Form({m: c for m, c in inner.terms.items() if any(a == args[0] for a, _e in m)})
+        affine = coef == (A * S("gv.sps") / S_axis if resamp else A)
+        if not affine:
+            ctx.holds(rule, fi, rets[0].node, label, "index not an affine function of the position with the rate ratio as slope (not this idiom)")
+            continue
+        ctx.check(rule, inner == want, fi, rets[0].node, label, f"(k - {'sps_resamp' if resamp else 'sps'}//2 + 1) * sps/S",
+                  f"the index is {short(inner - coef, 80)} off the position where {short(want - coef, 80)} is the half slot of an axis with {'sps_resamp' if resamp else 'sps'} samples per slot: the roll "
+                  "of the record is undone in the wrong unit, the index lands near the end of the slot (sps = 8, sps_resamp = 128: i = 8, outside [0, sps))")
+
+
 def rule_even_slots(ctx, rule):
     """the eye is folded into traces of TWO slots (the time axis is `nslots // 2` copies of a two-slot ramp), so the record must be
     cut to a whole number of two-slot periods: the remainder dropped at the end is taken modulo an even multiple of sps.  With a
@@ -972,3 +1014,5 @@ def run(ctx):
     ctx.require_min("C17.9", 2)
     rule_periodic_crossings(ctx, "C17.10")
     ctx.require_min("C17.10", 2)
+    rule_sampling_index(ctx, "C17.11")
+    ctx.require_min("C17.11", 2)
